@@ -5,6 +5,7 @@ package main
 import (
 	"fmt"
 	"os"
+	"regexp"
 	"go/ast"
 	"go/token"
 	"go/types"
@@ -847,6 +848,9 @@ func (fc *fctx) ghostAssign(st *State, fr *frame, cl *Clause, extra map[string]*
 	for k, v := range extra {
 		if _, exists := env.vars[k]; !exists {
 			env.vars[k] = v
+		} else if os.Getenv("GOVC_TRACE_HOOKS") != "" && regexp.MustCompile(`\b`+regexp.QuoteMeta(k)+`\b`).MatchString(cl.Text) {
+			// diagnostic only: the caller's parameter / result of this name shadows the callee's
+			fmt.Fprintf(os.Stderr, "hook-shadow: %s at %q: %q is the caller's, not the callee's\n", fc.name, cl.Where, k)
 		}
 	}
 	v := env.eval(cl.Expr)
